@@ -1,6 +1,6 @@
 (* Properties/C05.v — error messages carry a faithful target-spec trace down to the failing spec. *)
 From Coq Require Import Bool Lia List Arith String Ascii.
-From Glom Require Import Model.Trace Spec.TraceSpec Proofs.TraceProofs Proofs.TraceGeneral.
+From Glom Require Import Model.Trace Spec.TraceSpec Proofs.TraceProofs Proofs.TraceGeneral Proofs.TraceFull.
 Import ListNotations.
 Local Open Scope list_scope.
 
@@ -33,7 +33,27 @@ Theorem trace_value_shape : forall s suffix maxlen,
 Proof. exact trace_value_shape_lemma. Qed.
 Print Assumptions trace_value_shape.
 
-(* UNBOUNDED, for the chain-free fragment: for EVERY spec built from leaves, dict specs, Coalesce (with skipped values), Or and
+(* THE GENERAL THEOREM — unbounded, every shape of the model: for EVERY spec built from leaves, dict specs, tuple chains, Coalesce
+   (with skipped values), Or, Switch and Check-style guards — any nesting depth, any number of children, every success / failure
+   pattern — whose occurrences are numbered apart below 1000 (so that different errors are different numbers, as they are different
+   objects in glom), the outcome and the trace the breadcrumb machine renders ARE the structural reading of Spec/TraceSpec.v:
+   the spec at every level from the root down to the innermost spec that failed, each with the target it received; for a chain the
+   steps already done, in order, their own abandoned branches forgiven; for a branching spec every attempted branch with its own
+   failure trace, a single failed attempt that was also the last one as a straight line; a Switch value under its key; each
+   error shown where it was raised.  The machine side is everything _glom, chain_child, the NO_PYFRAME walk, _unpack_stack do
+   (frames re-wired under each other, top frames of finished steps overwritten, the error walking up the marked frames).
+   Proofs/TraceFull.v: (1) by induction on the evaluation, with a frame-locality invariant and an exact account of what an
+   evaluation does to the frames that existed before it, the raw descent _unpack_stack finds at a frame is a function of the
+   spec alone; (2) push-down and trim applied to that function give the reading. *)
+Theorem trace_is_structural_reading : forall s,
+  wf s -> fst (run s) = fst (expected s) /\ (forall e, fst (run s) = Exc e -> snd (run s) = snd (expected s)).
+Proof. exact full_reading_lemma. Qed.
+Print Assumptions trace_is_structural_reading.
+Example ex_general_hypotheses : wf full_example /\ fst (run full_example) = Exc 5003.
+Proof. split; [exact full_example_wf|vm_compute; reflexivity]. Qed.
+
+(* the same for the chain-free fragment, by the simpler development of Proofs/TraceGeneral.v (kept: its intermediate notions are
+   easier to read): for EVERY spec built from leaves, dict specs, Coalesce (with skipped values), Or and
    Check-style guards — any nesting depth, any number of children, every success / failure pattern — whose occurrences are numbered
    apart below 1000 (so that different errors are different numbers, as they are different objects in glom), the outcome and the
    trace the breadcrumb machine renders (frames, LAST_CHILD_SCOPE / CHILD_ERRORS / CUR_ERROR, _unpack_stack's descent, branch
@@ -41,8 +61,7 @@ Print Assumptions trace_value_shape.
    every attempted branch with its own failure trace, a single failed attempt that was also the last one as a straight line,
    abandoned and skipped alternatives absent, each error shown where it was raised.  Proved in two stages (Proofs/TraceGeneral.v):
    the raw descent at a frame is a function of the spec alone (induction on the evaluation, with a frame-locality invariant), and the
-   presentation steps applied to it give the reading.  Tuple chains and Switch (chain_child, the NO_PYFRAME walk) are not covered
-   by this theorem; for them the bounded companion below and the correspondence stand. *)
+   presentation steps applied to it give the reading. *)
 Theorem trace_is_structural_reading_chainfree : forall s,
   chainfree s = true -> wf s ->
   fst (run s) = fst (expected s) /\ (forall e, fst (run s) = Exc e -> snd (run s) = snd (expected s)).
@@ -51,7 +70,7 @@ Print Assumptions trace_is_structural_reading_chainfree.
 Example ex_chainfree_hypotheses : chainfree deep_example = true /\ wf deep_example.
 Proof. exact deep_example_ok. Qed.
 
-(* BOUNDED companion (a finite sweep, the bound is in the statement): for EVERY spec shape of nesting depth <= 2 with at most
+(* bounded companion, by evaluation (kept as a cross-check of the definitions: it does not need the numbering hypothesis' proof): for EVERY spec shape of nesting depth <= 2 with at most
    two children per node over leaf / dict / chain / Coalesce / Or / Switch / Check-style guard (109074 shapes, every success / failure pattern
    of the leaves), the trace the breadcrumb machine produces is exactly the structural reading of the property
    (Spec/TraceSpec.v: ancestors in order with the targets received, chain steps done, every attempted branch with its own
